@@ -4,6 +4,10 @@ func init() {
 	mk := func(driver string, shards int, p string, budget float64) Scenario {
 		return Scenario{Name: "C01/" + driver, Build: schedCoarse, Pkg: "internal", Test: "TestVerif_C01", Params: "driver=" + driver + ",P=" + p, Shards: shards, BudgetS: budget}
 	}
+	buf2 := Build{Kind: "sched", Coarse: []string{"rbmutex.go", "counter.go", "buffer.go"}, Consts: map[string]string{"buffer.go:capacity": "2"}}
+	mk2 := func(driver string, shards int, p string, budget float64) Scenario {
+		return Scenario{Name: "C01/" + driver, Build: buf2, Pkg: "internal", Test: "TestVerif_C01", Params: "driver=" + driver + ",P=" + p, Shards: shards, BudgetS: budget}
+	}
 	rb := func(driver string, budget float64) Scenario {
 		return Scenario{Name: "C01/rbmutex-" + driver, Build: sched, Pkg: "internal", Test: "TestVerif_RBMutex", Params: "driver=" + driver, Shards: 1, BudgetS: budget}
 	}
@@ -16,12 +20,12 @@ func init() {
 		Assume:    []string{"sequentially consistent interleavings of the shimmed operations", "values unique per write, so a read identifies the write it observed"},
 		Quick: []Scenario{
 			mk("L1-set-get-del", 6, "2", 60), mk("L2-update-reset", 4, "2", 60), mk("L3-pressure", 6, "2", 60), mk("L3-pressure-pool", 6, "2", 60),
-			mk("L1-pool", 4, "2", 60), mk("L1-doorkeeper", 6, "2", 60), mk("L4-loading", 6, "2", 60), mk("L4-loading-reload", 4, "2", 60), mk("L5-range", 4, "2", 60),
+			mk("L1-pool", 4, "2", 60), mk("L1-doorkeeper", 6, "2", 60), mk("L4-loading", 6, "2", 60), mk("L4-loading-reload", 4, "2", 60), mk("L5-range", 4, "2", 60), mk2("L6-pool-hit-vs-recycle", 6, "2", 60), mk2("L6L-pool-loading-hit-vs-recycle", 6, "2", 60),
 			rb("2r1w-s1", 60), rb("1r2w-s1", 60), rb("2r1w-s2", 60), rb("try-s1", 60), rb("try-s2", 60), rb("rebias-s1", 60), rb("rebias-s2", 60),
 		},
 		Thorough: []Scenario{
 			mk("L1-set-get-del", 16, "3", 900), mk("L2-update-reset", 16, "3", 900), mk("L3-pressure", 16, "3", 900), mk("L3-pressure-pool", 16, "3", 900),
-			mk("L1-pool", 16, "3", 900), mk("L1-doorkeeper", 16, "3", 900), mk("L4-loading", 16, "3", 900), mk("L4-loading-reload", 16, "3", 900), mk("L5-range", 16, "3", 900),
+			mk("L1-pool", 16, "3", 900), mk("L1-doorkeeper", 16, "3", 900), mk("L4-loading", 16, "3", 900), mk("L4-loading-reload", 16, "3", 900), mk("L5-range", 16, "3", 900), mk2("L6-pool-hit-vs-recycle", 16, "3", 900), mk2("L6L-pool-loading-hit-vs-recycle", 16, "3", 900),
 			rb("2r1w-s1", 600), rb("1r2w-s1", 600), rb("2r1w-s2", 600), rb("try-s1", 600), rb("try-s2", 600), rb("rebias-s1", 600), rb("rebias-s2", 600),
 		},
 	})
